@@ -196,13 +196,16 @@ pub struct SelfXDesc {
     pub rings: [Vec<(u16, u16)>; 2],
 }
 
-/// exact map applied on top of an exact family: axis symmetry `sym` (0..8), then x -> (x + t) * 2^k
+/// exact map applied on top of an exact family: axis symmetry `sym` (0..8), then p -> (p + t) * 2^k, then
+/// x -> x * 2^kx (anisotropic: long flat shapes whose edges cross at tiny angles; cross products scale
+/// consistently, so the family stays exact as long as no two *diagonal* edges are collinear)
 #[derive(Clone, Debug, PartialEq)]
 pub struct Aff {
     pub sym: u8,
     pub tx: i32,
     pub ty: i32,
     pub k: i32,
+    pub kx: i32,
 }
 
 #[derive(Clone, Debug, PartialEq)]
@@ -276,7 +279,7 @@ impl Aff {
     pub fn apply(&self, p: P) -> P {
         let q = sym_apply(self.sym, p);
         let s = (2.0f64).powi(self.k);
-        pt((q.x + self.tx as f64) * s, (q.y + self.ty as f64) * s)
+        pt((q.x + self.tx as f64) * s * (2.0f64).powi(self.kx), (q.y + self.ty as f64) * s)
     }
 }
 
@@ -474,6 +477,7 @@ impl CaseDesc {
             (Shape::Rect(_), None) => "rect",
             (Shape::Rect(_), Some(_)) => "aff-rect",
             (Shape::Oct(_), None) => "oct",
+            (Shape::Oct(_), Some(a)) if a.kx != 0 => "flat-oct",
             (Shape::Oct(_), Some(_)) => "aff-oct",
             (Shape::Pert(_), _) => "pert",
             (Shape::Gen(_), _) => "gen",
@@ -715,7 +719,23 @@ pub mod strat {
     }
 
     pub fn aff() -> BoxedStrategy<Aff> {
-        (0u8..8, -1_000_000i32..1_000_000, -1_000_000i32..1_000_000, -20i32..=20).prop_map(|(sym, tx, ty, k)| Aff { sym, tx, ty, k }).boxed()
+        (0u8..8, -1_000_000i32..1_000_000, -1_000_000i32..1_000_000, -20i32..=20).prop_map(|(sym, tx, ty, k)| Aff { sym, tx, ty, k, kx: 0 }).boxed()
+    }
+
+    /// long flat shapes: one operand from the octagonal lattice (diagonals allowed, collinear vertices merged), the
+    /// other axis-parallel only, x scaled by 2^kx (kx up to `kmax`): edges cross at angles down to 2^-kmax
+    pub fn flat_case(maxw: usize, maxh: usize, kmax: i32) -> BoxedStrategy<CaseDesc> {
+        (1..=maxw, 1..=maxh, any::<bool>(), 1i32..=kmax, any::<u64>())
+            .prop_flat_map(move |(w, h, diag_is_a, kx, bits)| {
+                let n = w * h;
+                let (ca, cb) = if diag_is_a { (oct_cell(false), oct_cell(true)) } else { (oct_cell(true), oct_cell(false)) };
+                (vec(ca, n), vec(cb, n), vec(oct_cell(true), n), (0u8..2, 0u8..2), (0u8..2, 0u8..2)).prop_map(move |(a, b, c, o1, o2)| CaseDesc {
+                    shape: Shape::Oct(OctDesc { w, h, cells: [a, b, c], off: [o1, o2], merge: [true, true, true] }),
+                    aff: Some(Aff { sym: 0, tx: 0, ty: 0, k: 0, kx }),
+                    bits,
+                })
+            })
+            .boxed()
     }
 
     pub fn case(shape: BoxedStrategy<Shape>, with_aff: bool) -> BoxedStrategy<CaseDesc> {
